@@ -144,7 +144,10 @@ func genYModsCase(r *Rng) Case {
 		f := pick(r, []string{"feature-cycle", "identity-cycle", "typedef-cycle-used", "typedef-cycle-unused", "grouping-cycle", "grouping-cycle-nested",
 			"import-cycle", "import-self", "import-missing", "unknown-prefix", "unknown-typedef", "unknown-grouping", "unknown-feature", "unknown-identity",
 			"dup-feature", "dup-identity", "dup-typedef", "dup-grouping", "bad-augment-path", "dev-race", "include-cycle", "include-missing",
-			"sub-import-missing", "sub-import-cycle", "orphan-submodule", "orphan-submodule"})
+			"sub-import-missing", "sub-import-cycle", "orphan-submodule", "orphan-submodule", "ref-status", "ref-status", "ref-status"})
+		if modsOnlyStatus {
+			f = "ref-status"
+		}
 		if (f == "include-cycle" || f == "include-missing" || f == "sub-import-missing" || f == "sub-import-cycle") && all["mc"]["subs"] == nil {
 			f = "feature-cycle"
 		}
@@ -219,6 +222,21 @@ func genYModsCase(r *Rng) Case {
 			specs = append(specs, md)
 			c["mods"] = specs
 			c["extraImports"] = []any{[]any{"md", "mc"}}
+		case "ref-status":
+			// status statements on typedefs and on the leaves that use them: a definition may refer to one of its own module
+			// that is as obsolete as itself or less, never to a more obsolete one; across modules anything goes
+			for _, om := range mods {
+				for _, td := range carr(all[om], "typedefs") {
+					if r.Chance(50) {
+						td.(mspec)["st"] = pick(r, []string{"current", "deprecated", "obsolete"})
+					}
+				}
+				for _, l := range carr(all[om], "leaves") {
+					if cstr(l.(mspec), "type") != "identityref" && r.Chance(50) {
+						l.(mspec)["st"] = pick(r, []string{"current", "deprecated", "obsolete"})
+					}
+				}
+			}
 		case "orphan-submodule":
 			// a submodule of a module that is not supplied (alone it would be the only text of a set: here it comes with others)
 			c["orphan"] = pick(r, []string{"nowhere", "mz"})
@@ -269,6 +287,19 @@ func pickSome(r *Rng, xs []string, p int) []any {
 		}
 	}
 	return out
+}
+
+// the same modules with no other fault than status statements on typedefs and leaves (C14: references within a module)
+var modsOnlyStatus bool
+
+func genYModsStatus(r *Rng, tier string, n int, emit func(Case)) {
+	modsOnlyStatus = true
+	defer func() { modsOnlyStatus = false }()
+	for i := 0; i < n; i++ {
+		c := genYModsCase(r)
+		c["k"] = "ymods"
+		emit(c)
+	}
 }
 
 func genYMods(r *Rng, tier string, n int, emit func(Case)) {
@@ -339,7 +370,11 @@ func renderMod(c Case, s mspec) string {
 	}
 	for _, d := range carr(s, "typedefs") {
 		dm := d.(mspec)
-		b.WriteString("  typedef " + cstr(dm, "n") + " { type " + ref(m, cstr(dm, "base")) + "; }\n")
+		st := ""
+		if x := cstr(dm, "st"); x != "" {
+			st = " status " + x + ";"
+		}
+		b.WriteString("  typedef " + cstr(dm, "n") + " { type " + ref(m, cstr(dm, "base")) + ";" + st + " }\n")
 	}
 	for _, d := range carr(s, "groupings") {
 		dm := d.(mspec)
@@ -367,6 +402,9 @@ func renderMod(c Case, s mspec) string {
 		}
 		for _, f := range carr(lm, "iff") {
 			b.WriteString(" if-feature " + ref(m, f.(string)) + ";")
+		}
+		if x := cstr(lm, "st"); x != "" {
+			b.WriteString(" status " + x + ";")
 		}
 		b.WriteString(" }\n")
 	}
@@ -414,7 +452,7 @@ func renderSub(parent string, s mspec) string {
 var modsClasses = []struct{ sub, cls string }{
 	{"Feature cyclic reference", "err:feature-cycle"}, {"Identity cyclic reference", "err:identity-cycle"},
 	{"Typedef cyclic reference", "err:typedef-cycle"}, {"Grouping cycle detected", "err:grouping-cycle"},
-	{"cycle detected", "err:import-cycle"}, {"module not found", "err:ref"}, {"unknown submodule", "err:ref"}, {"unknown import", "err:ref"}, {"non-existent module", "err:ref"},
+	{"cycle detected", "err:import-cycle"}, {"module not found", "err:ref"}, {"unknown submodule", "err:ref"}, {"unknown import", "err:ref"}, {"non-existent module", "err:ref"}, {"cannot reference", "err:status"},
 	{"unknown type", "err:ref"}, {"Unknown grouping", "err:ref"}, {"not valid", "err:ref"}, {"Can't find base", "err:ref"},
 	{"Invalid path", "err:ref"}, {"cannot shadow", "err:dup"}, {"Duplicate", "err:dup"}, {"redefinition", "err:dup"}, {"already defined", "err:dup"},
 	{"Property being added", "err:dev"}, {"Only existing", "err:dev"},
@@ -497,4 +535,5 @@ func runYMods(c Case) string {
 
 func init() {
 	register(&Stream{Name: "ymods", Prop: "C11", Gen: genYMods, Run: runYMods})
+	register(&Stream{Name: "ymodsst", Prop: "C14", Gen: genYModsStatus, Run: runYMods})
 }
